@@ -285,6 +285,12 @@ pub fn sim_link<In, Out>(id: u8, side: &'static str, cfg: LinkCfg) -> (SimTransp
     (SimTransport { st: st.clone() }, PeerEnd { st })
 }
 
+fn count_op(what: &'static str) {
+    if let Some(sim) = cur() {
+        sim.count(what);
+    }
+}
+
 fn log_op(link: u8, op: Op, res: Res, item: Option<Item>) {
     if let Some(sim) = cur() {
         sim.log(EvKind::TOp { link, op, res, item });
@@ -344,6 +350,7 @@ impl<In: Describe, Out> Stream for SimTransport<In, Out> {
     type Item = Result<In, SimErr>;
     fn poll_next(self: Pin<&mut Self>, cx: &mut Context<'_>) -> Poll<Option<Self::Item>> {
         preempt("t:next");
+        count_op("op.next");
         let mut st = self.st.borrow_mut();
         let link = st.id;
         st.next_calls += 1;
@@ -389,6 +396,7 @@ impl<In, Out: Describe> Sink<Out> for SimTransport<In, Out> {
 
     fn poll_ready(self: Pin<&mut Self>, cx: &mut Context<'_>) -> Poll<Result<(), SimErr>> {
         preempt("t:ready");
+        count_op("op.ready");
         let mut st = self.st.borrow_mut();
         let link = st.id;
         let side = st.side;
@@ -436,6 +444,7 @@ impl<In, Out: Describe> Sink<Out> for SimTransport<In, Out> {
 
     fn start_send(self: Pin<&mut Self>, item: Out) -> Result<(), SimErr> {
         preempt("t:send");
+        count_op("op.send");
         let d = item.describe();
         let mut st = self.st.borrow_mut();
         let link = st.id;
@@ -483,6 +492,7 @@ impl<In, Out: Describe> Sink<Out> for SimTransport<In, Out> {
 
     fn poll_flush(self: Pin<&mut Self>, cx: &mut Context<'_>) -> Poll<Result<(), SimErr>> {
         preempt("t:flush");
+        count_op("op.flush");
         let mut st = self.st.borrow_mut();
         let link = st.id;
         let res = if st.broken || st.fault(Op2::Flush) {
@@ -523,6 +533,7 @@ impl<In, Out: Describe> Sink<Out> for SimTransport<In, Out> {
 
     fn poll_close(self: Pin<&mut Self>, cx: &mut Context<'_>) -> Poll<Result<(), SimErr>> {
         preempt("t:close");
+        count_op("op.close");
         let mut st = self.st.borrow_mut();
         let link = st.id;
         let res = if st.broken || st.fault(Op2::Close) {
